@@ -1,6 +1,7 @@
 package main
 
 import (
+	"context"
 	"encoding/json"
 	"flag"
 	"fmt"
@@ -90,6 +91,7 @@ func cmdCheck(args []string) int {
 	keep := fs.Bool("keep", false, "keep SMT files")
 	verbose := fs.Bool("v", false, "verbose")
 	noEvidence := fs.Bool("no-evidence", false, "do not write the evidence file")
+	vacuity := fs.Bool("vacuity", false, "diagnostic: for every obligation also ask whether its path is satisfiable under the assumptions; list the vacuous ones (not counted as violations)")
 	replay := fs.String("replay", "", "replay a violation file")
 	var id string
 	if len(args) > 0 && !strings.HasPrefix(args[0], "-") {
@@ -250,6 +252,16 @@ func cmdCheck(args []string) int {
 	if *fn == "" {
 		all = append(all, lemObls...)
 	}
+	if *vacuity {
+		var extra []*Obligation
+		for _, o := range all {
+			if o.Expect == "unsat" && o.PC != "" && o.enc != nil && o.Kind != "safe.panic" {
+				extra = append(extra, &Obligation{Name: o.Name + "#path", Fn: o.Fn, Kind: "pathcover", Pos: o.Pos, Prefix: o.Prefix,
+					Goal: o.PC, Expect: "sat?", Desc: "diagnostic: the path of this obligation is satisfiable", enc: o.enc})
+			}
+		}
+		all = append(all, extra...)
+	}
 	if *only != "" {
 		var f2 []*Obligation
 		for _, o := range all {
@@ -342,6 +354,53 @@ func cmdCheck(args []string) int {
 		}
 		wg2.Wait()
 	}
+	// thorough tier: every proof found by z3-new is re-run on a second, independent solver
+	// (z3 4.8.12, then cvc5) on the SAME query; a `sat` there is a solver disagreement and is
+	// reported as a violation (one of the two solvers is wrong); unknown/timeout is counted
+	crossAgree, crossUnknown, crossDisagree := 0, 0, 0
+	if *tier == "thorough" && os.Getenv("GOVC_NOCROSS") == "" {
+		var wg3 sync.WaitGroup
+		sem3 := make(chan struct{}, 12)
+		var mu3 sync.Mutex
+		for _, r := range results {
+			if r.obl.Expect != "unsat" || r.Status != "unsat" || r.file == "" || !strings.HasPrefix(r.Solver, "z3-new") {
+				continue
+			}
+			wg3.Add(1)
+			go func(r *OblResult) {
+				defer wg3.Done()
+				sem3 <- struct{}{}
+				defer func() { <-sem3 }()
+				verdict := "unknown"
+				for _, sv := range []string{"z3", "cvc5"} {
+					st, _, _ := runSolver(context.Background(), sv, r.file, 15*time.Second, seed)
+					if st == "unsat" {
+						verdict = "agree"
+						break
+					}
+					if st == "sat" {
+						verdict = "disagree:" + sv
+						break
+					}
+				}
+				mu3.Lock()
+				switch {
+				case verdict == "agree":
+					crossAgree++
+				case strings.HasPrefix(verdict, "disagree"):
+					crossDisagree++
+					r.Status = "solver-disagreement"
+					r.Tried = append(r.Tried, verdict)
+				default:
+					crossUnknown++
+				}
+				mu3.Unlock()
+			}(r)
+		}
+		wg3.Wait()
+		fmt.Printf("cross-check (second solver on the same queries): %d confirmed, %d undecided by the second solver, %d disagreements\n", crossAgree, crossUnknown, crossDisagree)
+		crossStats = map[string]int{"confirmed_by_second_solver": crossAgree, "undecided_by_second_solver": crossUnknown, "disagreements": crossDisagree}
+	}
 	known := loadKnown()
 	nObl, nDis, nViol := 0, 0, 0
 	var violations []*OblResult
@@ -351,6 +410,12 @@ func cmdCheck(args []string) int {
 	solverTime := 0.0
 	for _, r := range results {
 		solverTime += r.Seconds
+		if r.obl.Expect == "sat?" {
+			if r.Status == "unsat" {
+				fmt.Printf("VACUOUS-PATH %s (%s): the assumptions on this path are contradictory; the obligation proves nothing\n", strings.TrimSuffix(r.Name, "#path"), r.Pos)
+			}
+			continue
+		}
 		if r.obl.Expect == "sat" {
 			// vacuity guard
 			if r.Status == "unsat" {
@@ -442,6 +507,9 @@ func cmdCheck(args []string) int {
 	if *verbose || exit != 0 {
 		for _, r := range results {
 			mark := "ok  "
+			if r.obl.Expect == "sat?" {
+				continue
+			}
 			if r.obl.Expect == "sat" {
 				if r.Status == "unsat" {
 					mark = "VAC "
@@ -546,6 +614,8 @@ func writeReplay(id string, r *OblResult, model map[string]string, cfg PropConfi
 	return path
 }
 
+var crossStats map[string]int
+
 func writeEvidence(id, tier string, seed int, cfg PropConfig, results []*OblResult, funcs, notes []string, used map[string]string, DB *ContractDB,
 	nObl, nDis, nViol int, knownHit, undecided []string, solverCount map[string]int, solverTime, wall float64, bounded []map[string]any) {
 	var samples []any
@@ -591,6 +661,7 @@ func writeEvidence(id, tier string, seed int, cfg PropConfig, results []*OblResu
 		level = "proof"
 	}
 	cov := map[string]any{
+		"cross_check_thorough":  crossStats,
 		"obligations":           nObl,
 		"discharged":            nDis,
 		"checker_cmd":           fmt.Sprintf("/verif/check %s --tier %s", id, tier),
